@@ -10,7 +10,7 @@ implementation did — so a framing difference cannot hide behind a shared "erro
   c10.subst <layer> <streamhex> <pos> <vals> <table>  verdicts for every value v of vals (v.v.v) written at pos
 
   layer  = bgzf | bam
-  table  = "-" or entries "tag:start:len:o:used:payloadhex" / "tag:start:len:f:code" joined by ","
+  table  = "-" or entries "tag:start:len:o:used:payloadhex" / "tag:start:len:f:code:produced" joined by ","
            tag = "*" (any value) or the value the entry belongs to; start/len delimit the byte string
            (of the cut/substituted stream) the entry answers for
   verdict (bgzf) = kind/datalen/datahash/haseof     haseof = t | f | e (error, result false)
@@ -41,9 +41,9 @@ def parseEntry (s : String) : Option Entry :=
   | [tag, st, ln, "o", used, pay] => do
     let t ← if tag == "*" then some none else (parseNat tag).map some
     some ⟨t, ← parseNat st, ← parseNat ln, .ok (toBytes (← parseHex pay)) (← parseNat used)⟩
-  | [tag, st, ln, "f", code] => do
+  | [tag, st, ln, "f", code, produced] => do
     let t ← if tag == "*" then some none else (parseNat tag).map some
-    some ⟨t, ← parseNat st, ← parseNat ln, .fail (← parseNat code)⟩
+    some ⟨t, ← parseNat st, ← parseNat ln, .fail (← parseNat code) (← parseNat produced)⟩
   | _ => none
 
 def parseTable (s : String) : Option (List Entry) :=
@@ -56,7 +56,7 @@ def codecFor (tbl : List Entry) (v : Option Nat) (stream : Bytes) : Codec :=
     if e.start + e.len ≤ stream.length then some ((stream.drop e.start).take e.len, e.res) else none
   { inflate := fun bs => match keyed.find? (fun p => p.1 == bs) with
       | some p => p.2
-      | none => .fail 99
+      | none => .fail 99 0
     crc32 := crc32 }
 
 def showErr : Err → String
